@@ -83,6 +83,9 @@ ValueOf(c, i) ==
     ELSE IF s = "arg" THEN (IF c.kinds[i] = "num" THEN 10 + i ELSE IF c.kinds[i] = "name" THEN 40 + i ELSE 50 + i)
     ELSE -1
 Resolution(c) == [i \in 1..c.n |-> [src |-> Source(c, i), v |-> ValueOf(c, i)]]
+(* arg(..., evaluate=False): a given argument that is an expression is handed back as the      *)
+(* expression object itself, everything else as its value                                     *)
+Unevaluated(c, i) == IF Source(c, i) = "arg" /\ c.kinds[i] = "expr" THEN "expr" ELSE "value"
 
 SetClass(n, d) ==
     /\ part = "resolve" /\ stage = "start" /\ n \in 1..3 /\ d \in 0..n
@@ -277,9 +280,19 @@ AllLawClasses == {"MassAction", "Arrhenius", "Eyring", "EyringHS", "Radiolytic",
     "TPoly", "RTPoly", "ShiftedTPoly", "ShiftedRTPoly", "Log10TPoly", "ShiftedLog10TPoly", "TPiecewise",
     "RampedTemp", "SinTemp", "Log10Wrap", "ExpWrap", "MassActionEq", "EqEquation", "GibbsEqConst",
     "ArrheniusParam", "EyringParam", "ArrheniusFromK", "ArrheniusAsRate", "EyringAsRate",
-    "FitArrhenius", "FitEyring", "LeastSquares"}
+    "FitArrhenius", "FitEyring", "LeastSquares",
+    \* factories: Expr.from_callback (the docstring's shifted polynomial), MassAction.from_callback,
+    \* MassActionEq.from_callback
+    "CallbackPoly", "MassActionCallback", "EqCallback",
+    \* arithmetic on a UnaryWrapper (MassAction): ma*f, f*ma, ma/f with a number, ma*Expr, Expr*ma
+    "MA_mul_num", "MA_rmul_num", "MA_div_num", "MA_mul_expr", "MA_rmul_expr",
+    \* the pieces a parameter set hands to as_RateExpr: Ea/R ; kB/h*exp(dS/R), dH/R
+    "ArrheniusParts", "EyringParts",
+    \* create_Piecewise(..., nan_fallback=False) with three constant pieces
+    "PiecewiseNum"}
+MAArith == {"MA_mul_num", "MA_rmul_num", "MA_div_num", "MA_mul_expr", "MA_rmul_expr"}
 AllModes == {"math", "numpy", "nparray", "sympy", "units", "units-scaled"}    \* nparray: array-valued variables (two lanes)
-AllPatterns == {"none", "first", "all", "absent", "second", "keys-only"}
+AllPatterns == {"none", "first", "all", "absent", "second", "keys-only", "dict"}   \* dict: args given as {name: value}
 
 (* arguments in order; the polynomial classes take Orders coefficients (after the shift) *)
 Coefs(k) == [i \in 1..k |-> "c" \o ToString(i - 1)]
@@ -303,17 +316,26 @@ LawArgs(c, k) ==
       [] c = "FitArrhenius" -> <<"A", "B">>
       [] c = "FitEyring"    -> <<"a", "B">>
       [] c = "LeastSquares" -> <<"b0", "b1">>
+      [] c = "CallbackPoly" -> <<"ref">> \o Coefs(k)
+      [] c = "MassActionCallback" -> <<"A", "Ea_over_R">>
+      [] c = "EqCallback"   -> <<"dH_over_R", "dS_over_R">>
+      [] c \in MAArith      -> <<"k", "f">>
+      [] c = "ArrheniusParts" -> <<"A", "Ea">>
+      [] c = "EyringParts"  -> <<"dH", "dS">>
+      [] c = "PiecewiseNum" -> <<"lo", "v0", "m1", "v1", "m2", "v2", "hi">>
 (* classes whose instances are Expr objects with unique_keys (override patterns apply)        *)
-ExprClasses == AllLawClasses \ {"TPiecewise", "Log10Wrap", "ExpWrap", "ArrheniusParam", "EyringParam",
-                                "ArrheniusFromK", "FitArrhenius", "FitEyring", "LeastSquares"}
+ExprClasses == AllLawClasses \ ({"TPiecewise", "Log10Wrap", "ExpWrap", "ArrheniusParam", "EyringParam",
+                                 "ArrheniusFromK", "FitArrhenius", "FitEyring", "LeastSquares",
+                                 "ArrheniusParts", "EyringParts", "PiecewiseNum"} \cup MAArith)
 (* classes that are rate expressions of a reaction: the value is multiplied by the mass-action *)
 (* concentration product of the reaction of the given order                                    *)
-RateClasses == {"MassAction", "Arrhenius", "Eyring", "EyringHS", "ArrheniusAsRate", "EyringAsRate"}
+RateClasses == {"MassAction", "Arrhenius", "Eyring", "EyringHS", "ArrheniusAsRate", "EyringAsRate",
+                "MassActionCallback"} \cup MAArith
 UsesOrder(c) == c \in RateClasses \cup {"TPoly", "RTPoly", "ShiftedTPoly", "ShiftedRTPoly", "Log10TPoly",
-                                       "ShiftedLog10TPoly", "Log10Wrap", "ExpWrap"}
+                                       "ShiftedLog10TPoly", "Log10Wrap", "ExpWrap", "CallbackPoly"}
 UnitClasses == {"MassAction", "Arrhenius", "Eyring", "EyringHS", "Radiolytic", "RadiolyticAB", "RampedTemp",
                 "GibbsEqConst", "ArrheniusParam", "EyringParam", "ArrheniusFromK", "ArrheniusAsRate",
-                "EyringAsRate"}
+                "EyringAsRate", "ArrheniusParts", "EyringParts"}
 (* classes with variables besides the temperature (concentrations, dose rates, time): these are *)
 (* evaluated with array-valued variables too                                                    *)
 ArrayClasses == RateClasses \cup {"Radiolytic", "RadiolyticAB", "RampedTemp", "SinTemp", "EqEquation"}
@@ -321,7 +343,7 @@ ModesOf(c) == IF c \in {"FitArrhenius", "FitEyring", "LeastSquares"} THEN {"nump
               ELSE (AllModes \ (IF c \in UnitClasses THEN {} ELSE {"units", "units-scaled"}))
                             \ (IF c \in ArrayClasses THEN {} ELSE {"nparray"})
 (* array lanes: in mode nparray every variable in LaneVars is an array <<v * f : f in LaneFactors>> *)
-LaneVars == {"X", "Y", "density", "doserate", "doserate_alpha", "doserate_beta", "time"}
+LaneVars == {"X", "Y", "density", "doserate", "doserate_alpha", "doserate_beta", "time", "T"}
 LaneFactors == <<<<1, 1>>, <<3, 2>>>>
 ScaleNum(x, f) == <<x[1] * f[1], x[2] * f[2], x[3]>>
 
@@ -340,10 +362,11 @@ IsPrefix(a, b) == Len(a) <= Len(b) /\ \A i \in 1..Len(a) : a[i] = b[i]
 CompanionK == <<7, 4, 0>>
 UsesTemp(c) == c \in {"Arrhenius", "Eyring", "EyringHS", "TPoly", "RTPoly", "ShiftedTPoly", "ShiftedRTPoly",
                       "TPiecewise", "Log10Wrap", "ExpWrap", "GibbsEqConst", "ArrheniusParam", "EyringParam",
-                      "ArrheniusFromK", "ArrheniusAsRate", "EyringAsRate"}
+                      "ArrheniusFromK", "ArrheniusAsRate", "EyringAsRate", "MassActionCallback", "EqCallback",
+                      "PiecewiseNum"}
 
 FixedNargs == {"MassAction", "Arrhenius", "Eyring", "EyringHS", "Radiolytic", "RadiolyticAB", "RampedTemp",
-               "SinTemp", "MassActionEq", "EqEquation", "GibbsEqConst"}
+               "SinTemp", "MassActionEq", "EqEquation", "GibbsEqConst", "MassActionCallback", "EqCallback"}
 (* trailing defaults (Eyring / EyringHS: the standard-state concentration, 1 molar) *)
 LawDefaults(c) == IF c = "Eyring" THEN [conc0 |-> NumI(1)] ELSE IF c = "EyringHS" THEN [c0 |-> NumI(1)] ELSE <<>>
 
@@ -355,6 +378,7 @@ PatternKeys(p, n) ==
       [] p = "absent"    -> [u |-> n, present |-> {}]
       [] p = "second"    -> [u |-> IF n >= 2 THEN 2 ELSE 1, present |-> IF n >= 2 THEN {2} ELSE {}]
       [] p = "keys-only" -> [u |-> n, present |-> 1..n]       \* Expr.fk(...): no args at all
+      [] p = "dict"      -> [u |-> -1, present |-> {}]
 PatternArgsAbsent(p) == p = "keys-only"
 
 (* bracketed physical constants: either CODATA vintage in the code is accepted; every law is   *)
@@ -411,6 +435,21 @@ LawTerms(c, a, x, k) ==
       [] c = "FitArrhenius" -> <<a["A"], TMul(a["B"], RGas)>>
       [] c = "FitEyring"  -> <<TMul(a["B"], RGas), TMul(RGas, TSub(a["a"], TLog(KBH)))>>
       [] c = "LeastSquares" -> <<a["b0"], a["b1"]>>
+      [] c = "CallbackPoly" -> <<PolyT(a, Coefs(k), TSub(x["x"], a["ref"]))>>
+      [] c = "MassActionCallback" -> <<TMul3(a["A"], TExp(TNeg(TDiv(a["Ea_over_R"], x["T"]))), ConcProd(k, x))>>
+      [] c = "EqCallback" -> <<TExp(TSub(a["dS_over_R"], TDiv(a["dH_over_R"], x["T"])))>>
+      [] c \in {"MA_mul_num", "MA_rmul_num", "MA_mul_expr", "MA_rmul_expr"} -> <<TMul3(a["k"], a["f"], ConcProd(k, x))>>
+      [] c = "MA_div_num" -> <<TMul(TDiv(a["k"], a["f"]), ConcProd(k, x))>>
+      [] c = "ArrheniusParts" -> <<TDiv(a["Ea"], RGas)>>
+      [] c = "EyringParts" -> <<TMul(KBH, TExp(TDiv(a["dS"], RGas))), TDiv(a["dH"], RGas)>>
+
+(* three constant pieces lo..m1..m2..hi, bounds inclusive; outside [lo, hi] evaluation must be refused *)
+QOf(t) == EvalQR(t, <<>>).q
+PiecewiseNumOut(a, x) == QLt(QOf(x["T"]), QOf(a["lo"])) \/ QLt(QOf(a["hi"]), QOf(x["T"]))
+PiecewiseNumTerm(a, x) ==
+    IF PiecewiseNumOut(a, x) THEN <<TC(0)>>
+    ELSE IF QLe(QOf(x["T"]), QOf(a["m1"])) THEN <<a["v0"]>>
+    ELSE IF QLe(QOf(x["T"]), QOf(a["m2"])) THEN <<a["v1"]>> ELSE <<a["v2"]>>
 
 (* piecewise: lo <= T <= mid -> p0 + p1*T ; mid <= T <= hi -> q0 + q1*T (first matching piece) *)
 PiecewiseTerm(a, x, env0) ==
@@ -461,21 +500,30 @@ ResultUnits(c, k) ==
       [] c \in {"ArrheniusParam", "EyringParam"} -> <<"1/s">>
       [] c = "ArrheniusFromK" -> <<"1/s", "1/s">>
       [] c = "RampedTemp" -> <<"K">>
+      [] c = "ArrheniusParts" -> <<"K">>
+      [] c = "EyringParts" -> <<"1/s/K", "K">>
       [] OTHER -> <<"">>
 
+(* the ways a fit / regression entry point can be called on the same exact data *)
+FitVariants(c) ==
+    IF c = "FitArrhenius" THEN <<"kerr=None", "kerr=1%", "kerr=mixed", "nonlinear", "nonlinear-kerr", "from_fit_of_data">>
+    ELSE IF c = "FitEyring" THEN <<"kerr=None", "kerr=1%", "kerr=mixed", "nonlinear", "nonlinear-kerr">>
+    ELSE IF c = "LeastSquares" THEN <<"ols", "weighted", "weighted-mixed", "irls", "units">>
+    ELSE <<>>
 (* cfg = [cls, order, pattern, pset (parameter set), temp, mode] *)
 ChooseLaw(c, k, p) ==
     /\ part = "laws" /\ stage = "start" /\ c \in AllLawClasses /\ k \in 1..3 /\ p \in AllPatterns
     /\ (~UsesOrder(c) => k = 1)
     /\ (c \notin ExprClasses => p = "none")
-    /\ (p = "keys-only" => c \in FixedNargs)          \* Expr.fk needs a class that knows its number of arguments
+    /\ (p \in {"keys-only", "dict"} => c \in FixedNargs)  \* Expr.fk / dict args need a class that names its arguments
     /\ (c = "ArrheniusAsRate" => p \in {"none", "first"}) /\ (c = "EyringAsRate" => p = "none")
     /\ cfg' = [cls |-> c, order |-> k, pattern |-> p] /\ stage' = "pset" /\ UNCHANGED <<part, stack, out>>
 
 ChooseParams(ps) ==
     /\ part = "laws" /\ stage = "pset"
     /\ ps.ngiven >= Len(LawArgs(cfg.cls, cfg.order)) - Cardinality(DOMAIN LawDefaults(cfg.cls))
-    /\ (PatternArgsAbsent(cfg.pattern) => ps.ngiven >= Len(LawArgs(cfg.cls, cfg.order)))
+    /\ (PatternArgsAbsent(cfg.pattern) \/ cfg.pattern = "dict" => ps.ngiven >= Len(LawArgs(cfg.cls, cfg.order)))
+       \* a dict names every argument ("converted to a list using argument_names")
     /\ cfg' = [cls |-> cfg.cls, order |-> cfg.order, pattern |-> cfg.pattern, pset |-> ps]
     /\ stage' = "temp" /\ UNCHANGED <<part, stack, out>>
 
@@ -488,6 +536,9 @@ Evaluate(m) ==
     /\ part = "laws" /\ stage = "mode" /\ m \in ModesOf(cfg.cls)
     \* a defaulted standard state is a quantity (1 molar): only meaningful with units
     /\ (cfg.pset.ngiven < Len(LawArgs(cfg.cls, cfg.order)) => m \in {"units", "units-scaled"})
+    \* outside the bounds of a piecewise definition only the numeric backends refuse (ValueError)
+    /\ (cfg.cls = "PiecewiseNum" => m \in {"math", "numpy"} \/
+          LET a == [nm \in DOMAIN cfg.pset.v |-> TNum(cfg.pset.v[nm])] IN ~PiecewiseNumOut(a, [T |-> TNum(cfg.temp)]))
     /\ cfg' = [cls |-> cfg.cls, order |-> cfg.order, pattern |-> cfg.pattern, pset |-> cfg.pset,
                temp |-> cfg.temp, mode |-> m]
     /\ stage' = "hist" /\ stack' = <<>> /\ UNCHANGED <<part, out>>
@@ -515,10 +566,13 @@ LaneValue(nm, l) == IF cfg.mode = "nparray" /\ nm \in LaneVars THEN ScaleNum(Sto
 VarTermsLane(l) == [nm \in DOMAIN Store |-> TNum(LaneValue(nm, l))]
 VarTerms == [nm \in DOMAIN Store |-> TNum(Store[nm])]
 LawValueTermsLane(l) ==
-    IF cfg.cls = "TPiecewise" THEN PiecewiseTerm(EffTerms, VarTermsLane(l), <<>>)
+    IF cfg.cls = "PiecewiseNum" THEN PiecewiseNumTerm(EffTerms, VarTermsLane(l))
+    ELSE IF cfg.cls = "TPiecewise" THEN PiecewiseTerm(EffTerms, VarTermsLane(l), <<>>)
     ELSE LawTerms(cfg.cls, EffTerms, VarTermsLane(l), cfg.order)
+MustRaise == cfg.cls = "PiecewiseNum" /\ PiecewiseNumOut(EffTerms, VarTerms)
 LawValueTerms ==
-    IF cfg.cls = "TPiecewise" THEN PiecewiseTerm(EffTerms, VarTerms, <<>>)
+    IF cfg.cls = "PiecewiseNum" THEN PiecewiseNumTerm(EffTerms, VarTerms)
+    ELSE IF cfg.cls = "TPiecewise" THEN PiecewiseTerm(EffTerms, VarTerms, <<>>)
     ELSE LawTerms(cfg.cls, EffTerms, VarTerms, cfg.order)
 CompanionTermsLane(l) == LET x == VarTermsLane(l) IN <<TMul3(TNum(CompanionK), x["X"], x["Y"])>>
 StepTermsLane(who, l) == IF who = "companion" THEN CompanionTermsLane(l) ELSE LawValueTermsLane(l)
@@ -588,9 +642,15 @@ CaseRec ==
           cls |-> IF ~CtorOK(cfg) THEN "ctor-raise"
                   ELSE "res-n" \o ToString(cfg.n) \o (IF cfg.g = -1 THEN "-noargs" ELSE "")
                        \o (IF cfg.u = -1 THEN "-nokeys" ELSE "") \o "-" \o cfg.form,
-          exp |-> IF ~CtorOK(cfg) THEN [ctor_raises |-> TRUE, res |-> <<>>] ELSE [ctor_raises |-> FALSE, res |-> out] ]
+          exp |-> IF ~CtorOK(cfg) THEN [ctor_raises |-> TRUE, res |-> <<>>] ELSE [ctor_raises |-> FALSE, res |-> out,
+                                                                                   unev |-> [i \in 1..cfg.n |-> Unevaluated(cfg, i)]] ]
     ELSE IF part = "algebra" THEN
-        [ in  |-> [part |-> "algebra", tree |-> stack[1].w, envs |-> Envs],
+        \* raw operands may be spelled int | float and str | sympy.Symbol: the implicit conversion
+        \* gives Constant / Symbol either way, so every spelling denotes the same value
+        [ in  |-> [part |-> "algebra", tree |-> stack[1].w, envs |-> Envs,
+                   rawforms |-> <<[i |-> "int", s |-> "str", s_left |-> "str"],
+                                 \* a sympy.Symbol on the LEFT would dispatch to sympy's own operator: str there
+                                 [i |-> "float", s |-> "sympy.Symbol", s_left |-> "str"]>>],
           cls |-> AlgClass,
           \* the term is exported only where a value is not an exact rational (eval_term needs it)
           exp |-> [vals |-> [e \in 1..EnvCount |-> ResultView(out[e])],
@@ -607,6 +667,7 @@ CaseRec ==
                    vars |-> [nm \in DOMAIN cfg.pset.env \cup {"T"} |-> IF nm = "T" THEN cfg.temp ELSE cfg.pset.env[nm]],
                    keys |-> LawKeys.u, present |-> [i \in 1..(IF LawKeys.u > 0 THEN LawKeys.u ELSE 0) |-> i \in LawKeys.present],
                    args_absent |-> PatternArgsAbsent(cfg.pattern), mode |-> cfg.mode,
+                   argform |-> (IF cfg.pattern = "dict" THEN "dict" ELSE "list"), variants |-> FitVariants(cfg.cls),
                    hist |-> Whos, lane_vars |-> (IF cfg.mode = "nparray" THEN LaneVars \cap DOMAIN Store ELSE {}),
                    lane_factors |-> [l \in 1..NLanes |-> LaneFactors[l]], companion_k |-> CompanionK,
                    units |-> [nm \in Range(LawArgs(cfg.cls, cfg.order)) \cup DOMAIN cfg.pset.env \cup {"T"} |->
@@ -627,7 +688,7 @@ CaseRec ==
                                     [terms |-> lt,
                                      exact |-> [j \in 1..Len(lt) |->
                                                   ResultView(IF UsedBrackets(lt) = {} THEN EvalQR(lt[j], <<>>) ELSE RIrr)]]]]],
-                   frame |-> "variables-unchanged",
+                   frame |-> "variables-unchanged", raises |-> MustRaise,
                    result_units |-> ResultUnits(cfg.cls, cfg.order),
                    rtol |-> IF cfg.cls \in {"FitArrhenius", "FitEyring", "LeastSquares"} THEN "1e-7" ELSE "1e-10"] ]
 Emit == Done => PrintT(<<"CASE", ToJson(CaseRec)>>)
